@@ -564,6 +564,19 @@ func (t *T) class() string {
 		return strClass(t.S)
 	}
 	name := map[byte]string{'l': "list", 'm': "map", 'k': "keyed-array", 'x': "mixed-array"}[t.K]
+	if t.K == 'x' { // a reduced mixed array that kept only one slot kind is named as what it then is
+		pos := 0
+		for _, k := range t.Keys {
+			if k == "" {
+				pos++
+			}
+		}
+		if pos == 0 {
+			name = "keyed-array"
+		} else if pos == len(t.Keys) {
+			name = "list"
+		}
+	}
 	if len(t.C) == 0 {
 		return name + "[]"
 	}
@@ -581,6 +594,9 @@ func (t *T) class() string {
 			}
 			if t.K == 'x' && t.Keys[i] == "" {
 				kc = "pos"
+				if name == "list" {
+					kc = "k-alnum"
+				}
 			}
 			if kc != "k-alnum" {
 				d = kc + "=>" + d
